@@ -263,3 +263,54 @@ register("index_update", s_index_update(),
          lambda e, ctx: Call(lambda tensor, indices, values: tl.index_update(tensor, indices, values),
                              dict(tensor=ctx.A(e["T"]), indices=tl.index[e["row"], :], values=ctx.A(e["V"])), exempt=("tensor", "indices")),
          quick=100, dtypes=CPLX)
+
+
+# ============================================================================
+# base re-arrangements: the shape / mode arguments are given as caller-owned lists
+# ============================================================================
+from tensorly import base as B  # noqa: E402
+
+
+@st.composite
+def s_base(draw):
+    shape = draw(small_shape(1, 4, 1, 4, 64))
+    nd = len(shape)
+    sb = draw(st.integers(0, nd - 1))
+    se = draw(st.integers(0, nd - 1 - sb))
+    perm = draw(st.permutations(list(range(nd))))
+    k = draw(st.integers(0, nd))
+    return {"X": draw(enc(shape)), "mode": draw(st.integers(0, nd - 1)), "sb": sb, "se": se, "pmode": draw(st.integers(0, nd - sb - se - 1)),
+            "shapeform": draw(st.sampled_from(["list", "list", "tuple"])), "rows": list(perm[:k]), "cols": list(perm[k:]),
+            "colsgiven": draw(st.booleans()), "ravel": draw(st.booleans())}
+
+
+def _unfold_fold(tensor, mode, shape):
+    u = B.unfold(tensor, mode)
+    return u, B.fold(u, mode, shape), B.fold(u, mode, shape)          # twice: the shape argument must survive the first call
+
+
+def _partial(tensor, mode, skip_begin, skip_end, ravel_tensors, shape):
+    u = B.partial_unfold(tensor, mode=mode, skip_begin=skip_begin, skip_end=skip_end, ravel_tensors=ravel_tensors)
+    f = B.partial_fold(u, mode, shape, skip_begin=skip_begin, skip_end=skip_end)
+    return u, f, B.partial_fold(u, mode, shape, skip_begin=skip_begin, skip_end=skip_end)
+
+
+def _vec(tensor, shape, skip_begin, skip_end):
+    v = B.tensor_to_vec(tensor)
+    pv = B.partial_tensor_to_vec(tensor, skip_begin=skip_begin, skip_end=skip_end)
+    return v, B.vec_to_tensor(v, shape), pv, B.partial_vec_to_tensor(pv, shape, skip_begin=skip_begin, skip_end=skip_end)
+
+
+register("base.unfold_fold", s_base(),
+         lambda e, ctx: Call(_unfold_fold, dict(tensor=ctx.A(e["X"]), mode=e["mode"], shape=container(e["shapeform"], e["X"]["s"]))),
+         dtypes=CPLX, quick=120)
+register("base.partial_unfold_fold", s_base(),
+         lambda e, ctx: Call(_partial, dict(tensor=ctx.A(e["X"]), mode=e["pmode"], skip_begin=e["sb"], skip_end=e["se"], ravel_tensors=e["ravel"],
+                                            shape=container(e["shapeform"], e["X"]["s"]))), dtypes=CPLX, quick=120)
+register("base.vec_roundtrips", s_base(),
+         lambda e, ctx: Call(_vec, dict(tensor=ctx.A(e["X"]), shape=container(e["shapeform"], e["X"]["s"]), skip_begin=e["sb"], skip_end=e["se"])),
+         dtypes=CPLX, quick=120)
+register("base.matricize", s_base(),
+         lambda e, ctx: Call(B.matricize, dict(tensor=ctx.A(e["X"]), row_modes=container(e["shapeform"], e["rows"]),
+                                               column_modes=container(e["shapeform"], e["cols"]) if e["colsgiven"] else None)),
+         dtypes=CPLX, quick=120)
